@@ -4,6 +4,7 @@ import Proofs.ParseTop
 import Proofs.Eval
 import Proofs.Recogniser
 import Proofs.RecogniserComplete
+import Proofs.ShapeTop
 namespace Dltype.C05
 open Dltype Dltype.Spec Dltype.Proofs
 
@@ -120,6 +121,22 @@ theorem grammar_is_unambiguous (t₁ t₂ : Tree) (h₁ : t₁.WF = true) (h₂ 
 theorem arithmetic_value_well_defined (s : List Char) (t₁ t₂ : Tree) (h₁ : t₁.WF = true) (h₂ : t₂.WF = true)
     (e₁ : t₁.str = s) (e₂ : t₂.str = s) (σ : Name → Option Int) : t₁.eval σ = t₂.eval σ := by
   rw [grammar_unambiguous t₁ t₂ h₁ h₂ (e₁.trans e₂.symm)]
+
+/-- C05a at the level users write — a whole shape string: for EVERY non-empty list of well-formed expression trees, the
+    string that writes them separated by single spaces is accepted by the annotation constructor (`parseShape`, the model of
+    `TensorTypeBase.__init__`); the annotation has exactly those dimensions, in order, each compiled to the post-order of its
+    tree, no multi-axis marker, and the literal axes the standalone check uses are the literal positions -/
+theorem shape_string_accepted_and_compiled (ts : List Tree) (hne : ts ≠ []) (hwf : ∀ t ∈ ts, t.WF = true)
+    (cls : Nat) (opt : Bool) :
+    parseShape (some (joinWords (ts.map Tree.str))) cls opt =
+      .ok { dims := ts.map dimOf, multiIdx := none, multiName := none, anonMulti := false,
+            literalDims := literalDimsOf (ts.map dimOf) 0 none, cls := cls, optional := opt } :=
+  parseShape_trees ts hne hwf cls opt
+
+/-- non-vacuity: `"a a+1 3"` is such a shape string -/
+theorem example_shape_string :
+    let ts : List Tree := [.var ['a'], .bin .add (.var ['a']) (.lit ['1']), .lit ['3']]
+    joinWords (ts.map Tree.str) = "a a+1 3".toList ∧ (∀ t ∈ ts, t.WF = true) := by decide
 
 /-- non-vacuity: a concrete tree of the grammar, its string, its program and its value -/
 theorem example_tree :
